@@ -502,12 +502,23 @@ func getFuncKindAndReceiver(funcDecl *ast.FuncDecl) (TestOnlyKind, string) {
 }
 
 // ExtractReceiverType extracts the receiver type name from a receiver type expression
-// Examples: *MyStruct -> MyStruct, MyStruct -> MyStruct
+// Examples: *MyStruct -> MyStruct, MyStruct -> MyStruct, (MyStruct) -> MyStruct
 func ExtractReceiverType(expr ast.Expr) string {
 	switch t := expr.(type) {
+	case *ast.ParenExpr:
+		// Parenthesised receiver: (MyStruct), (*MyStruct)
+		return ExtractReceiverType(t.X)
 	case *ast.StarExpr:
-		// Pointer receiver: *MyStruct
-		if ident, ok := t.X.(*ast.Ident); ok {
+		// Pointer receiver: *MyStruct, *(MyStruct)
+		x := t.X
+		for {
+			paren, ok := x.(*ast.ParenExpr)
+			if !ok {
+				break
+			}
+			x = paren.X
+		}
+		if ident, ok := x.(*ast.Ident); ok {
 			return ident.Name
 		}
 	case *ast.Ident:
